@@ -83,10 +83,10 @@ theorem cv_wcommit {s : Sys} (h : Ok s) (hp : (cv s).pending = true) :
     Ok (step s .wcommit).1 ∧
     cv (step s .wcommit).1 = { pending := false, wlen := (cv s).wlen, total := (cv s).total + (if (cv s).acc then (cv s).wlen else 0), nrd := (cv s).nrd, m0 := (cv s).m0, m1 := (cv s).m1, i0 := (cv s).i0, i1 := (cv s).i1, l0 := (cv s).l0, l1 := (cv s).l1, acc := (cv s).acc } := by
   replace hp : s.pending = true := hp
-  have hwf : Op.wcommit.wf s = true := by simp [Op.wf, hp]
+  have hwf : Op.wcommit.wf s = true := rfl
   refine ⟨h.step _ hwf, ?_⟩
   obtain ⟨cap, g, hr⟩ := h
-  obtain ⟨a1, a3, a4, a5, a6⟩ := wcommit_spec hr hwf
+  obtain ⟨a1, a3, a4, a5, a6⟩ := wcommit_spec hr hp
   have r : ∀ j, regionLen (step s .wcommit).1 j = regionLen s j := by
     intro j
     apply regionLen_congr _ _ _ (by rw [a5])
@@ -262,5 +262,82 @@ theorem cv_i1_le {s : Sys} (h : Ok s) (hn : 2 ≤ (cv s).nrd) : (cv s).i1 + (cv 
     rw [regionLen_unmapped s 1 hm]
     have := (C01.consumed_is_stream hr 1 (by omega)).2.2.1
     omega
+
+/-! ## nothing of a write in flight
+
+After `channel_abort_write` (and after a commit) the write side is *idle*: no write pending and, if the channel accepts writes,
+nothing mapped beyond `head`. Reader operations and a refusal keep it idle, and a `channel_write_unmap` in that state changes
+nothing — which is what `source.c` relies on when the camera hands out an empty frame (abort, then the unconditional unmap). -/
+
+def Idle (s : Sys) : Prop := s.pending = false ∧ (s.c.accepting = true → s.c.mapped = s.c.head)
+
+theorem readMapCore_wside (c : Chan) (r : Rd) (i : Nat) (h : Hold) :
+    (readMapCore c r i h).1.head = c.head ∧ (readMapCore c r i h).1.mapped = c.mapped ∧ (readMapCore c r i h).1.accepting = c.accepting := by
+  unfold readMapCore setHold
+  simp only
+  (repeat' split) <;> exact ⟨rfl, rfl, rfl⟩
+
+theorem readMap_wside (c : Chan) (r : Rd) :
+    (readMap c r).1.head = c.head ∧ (readMap c r).1.mapped = c.mapped ∧ (readMap c r).1.accepting = c.accepting := by
+  unfold readMap readMapAt readerInit
+  by_cases hid : r.id > 0
+  · simp only [if_pos hid]; exact readMapCore_wside _ _ _ _
+  · simp only [if_neg hid]; exact readMapCore_wside _ _ _ _
+
+theorem readUnmap_wside (c : Chan) (r : Rd) (k : Nat) :
+    (readUnmap c r k).1.head = c.head ∧ (readUnmap c r k).1.mapped = c.mapped ∧ (readUnmap c r k).1.accepting = c.accepting := by
+  unfold readUnmap setHold
+  split <;> exact ⟨rfl, rfl, rfl⟩
+
+theorem idle_rmap {s : Sys} (h : Idle s) (i : Nat) : Idle (step s (.rmap i)).1 := by
+  unfold Idle at *
+  simp only [step]
+  split
+  · exact h
+  · rename_i r _
+    have := readMap_wside s.c r
+    exact ⟨h.1, by simp only; rw [this.2.2, this.2.1, this.1]; exact h.2⟩
+
+theorem idle_runmap {s : Sys} (h : Idle s) (i k : Nat) : Idle (step s (.runmap i k)).1 := by
+  unfold Idle at *
+  simp only [step]
+  split
+  · exact h
+  · rename_i r _
+    have := readUnmap_wside s.c r k
+    exact ⟨h.1, by simp only; rw [this.2.2, this.2.1, this.1]; exact h.2⟩
+
+theorem idle_join {s : Sys} (h : Idle s) : Idle (step s .join).1 := by
+  unfold Idle at *
+  simp only [step]
+  have := readMap_wside s.c {}
+  exact ⟨h.1, by rw [this.2.2, this.2.1, this.1]; exact h.2⟩
+
+theorem idle_refuse {s : Sys} (h : Idle s) : Idle (step s (.accept false)).1 := by
+  unfold Idle at *
+  refine ⟨h.1, ?_⟩
+  intro ha
+  have : (step s (.accept false)).1.c.accepting = false := rfl
+  rw [this] at ha; cases ha
+
+theorem idle_wabort (s : Sys) : Idle (step s .wabort).1 := by
+  unfold Idle
+  refine ⟨rfl, ?_⟩
+  simp only [step, abortWrite]
+  split <;> simp_all
+
+/-- a `channel_write_unmap` with nothing in flight changes nothing -/
+theorem wcommit_idle {s : Sys} (h : Idle s) : (step s .wcommit).1 = s := by
+  obtain ⟨hp, hm⟩ := h
+  obtain ⟨c, rds, pending, wbeg, wlen, total, idx, join, bounds⟩ := s
+  obtain ⟨cap, head, high, cycle, mapped, accepting, holds⟩ := c
+  simp only at hp hm
+  subst hp
+  cases accepting with
+  | false => simp [step]
+  | true =>
+    have e := hm rfl
+    subst e
+    simp [step, writeUnmap]
 
 end AcqVerif.Channel
